@@ -243,12 +243,46 @@ func checkC16(c *Ctx) {
 			continue
 		}
 		nret := 0
+		runFn := fn
+		// the retry loop may live in a helper shared by the clients, which is handed the work as a function value: then
+		// Run ends only when the helper does, and the helper's returns are the ones that must sit in the ctx.Done() arm
+		if len(loopHeaders(fn)) == 0 {
+			var hcall *ssa.Call
+			eachInstr(fn, func(_ *ssa.BasicBlock, _ int, in ssa.Instruction) {
+				call, ok := in.(*ssa.Call)
+				if !ok {
+					return
+				}
+				g := calleeFn(call.Common())
+				if g == nil || !isModFn(g) || g.Blocks == nil || len(loopHeaders(g)) == 0 {
+					return
+				}
+				for _, a := range call.Call.Args {
+					if _, isSig := a.Type().Underlying().(*types.Signature); isSig {
+						hcall = call
+					}
+				}
+			})
+			if hcall != nil {
+				n := 0
+				eachInstr(fn, func(b *ssa.BasicBlock, _ int, in ssa.Instruction) {
+					if _, ok := in.(*ssa.Return); ok {
+						n++
+						c.Check(instrDominates(hcall, in), "R3", fmt.Sprintf("%s return#%d after the retry helper", fnKey(fn), n), in.Pos(), "Run returns only after the retry helper returned", "Run can return without entering the retry loop")
+					}
+				})
+				fn = calleeFn(hcall.Common())
+			}
+		}
 		eachInstr(fn, func(b *ssa.BasicBlock, _ int, in ssa.Instruction) {
 			if _, ok := in.(*ssa.Return); !ok {
 				return
 			}
 			nret++
 			site := fmt.Sprintf("%s return#%d", fnKey(fn), nret)
+			if fn != runFn {
+				site = fmt.Sprintf("%s via %s return#%d", fnKey(runFn), fnKey(fn), nret)
+			}
 			ok := false
 			for _, d := range fn.Blocks {
 				for _, x := range d.Instrs {
@@ -269,7 +303,7 @@ func checkC16(c *Ctx) {
 		})
 		// the loop calls run() in every iteration
 		hasLoop := len(loopHeaders(fn)) >= 1
-		c.Check(hasLoop, "R3", fnKey(fn)+" loops", fn.Pos(), "retry loop present", "Run no longer loops")
+		c.Check(hasLoop, "R3", fnKey(runFn)+" loops", fn.Pos(), "retry loop present", "Run no longer loops")
 	}
 	c.Expect("R3", 6)
 
@@ -310,7 +344,29 @@ func checkC16(c *Ctx) {
 		c.Unresolved("R5", "StreamDependencies")
 	} else {
 		counts := map[string]map[string]int{"Subscribe": {}, "Unsubscribe": {}}
-		for _, fn := range withAnon(sd) {
+		// the hook body: the closures of StreamDependencies and the methods of the same client they call (and theirs)
+		hookFns := []*ssa.Function{}
+		seenHF := map[*ssa.Function]bool{}
+		var addHF func(f *ssa.Function, depth int)
+		addHF = func(f *ssa.Function, depth int) {
+			if f == nil || seenHF[f] || f.Blocks == nil || depth > 4 {
+				return
+			}
+			seenHF[f] = true
+			hookFns = append(hookFns, f)
+			for _, a := range f.AnonFuncs {
+				addHF(a, depth+1)
+			}
+			eachInstr(f, func(_ *ssa.BasicBlock, _ int, in ssa.Instruction) {
+				if cc := callOf(in); cc != nil {
+					if g := calleeFn(cc); g != nil && g.Signature.Recv() != nil && sd.Signature.Recv() != nil && types.Identical(g.Signature.Recv().Type(), sd.Signature.Recv().Type()) {
+						addHF(g, depth+1)
+					}
+				}
+			})
+		}
+		addHF(sd, 0)
+		for _, fn := range hookFns {
 			eachInstr(fn, func(_ *ssa.BasicBlock, _ int, in ssa.Instruction) {
 				cc := callOf(in)
 				if cc == nil {
@@ -475,54 +531,96 @@ func checkSenderWokenByReceiver(c *Ctx, rule string) {
 		// what the sender watches: parameters of loopSend used as the channel of a blocking select's receive case
 		okAll, nsel := true, 0
 		why := ""
+		// the sender's selects may sit in a helper the loop calls with its own parameters (nextBatch(stop)): a helper
+		// parameter stands for the sender parameter passed at the call
+		type selFn struct {
+			fn  *ssa.Function
+			arg func(prm *ssa.Parameter) ssa.Value // the value at the go/call site of the sender, nil if unknown
+		}
+		lsArg := func(prm *ssa.Parameter) ssa.Value {
+			idx := paramIndex(ls, prm)
+			if idx >= 0 && idx < len(ed.Site.Common().Args) {
+				return ed.Site.Common().Args[idx]
+			}
+			return nil
+		}
+		selFns := []selFn{{ls, lsArg}}
 		eachInstr(ls, func(_ *ssa.BasicBlock, _ int, in ssa.Instruction) {
-			sel, ok := in.(*ssa.Select)
-			if !ok || !sel.Blocking {
+			cc := callOf(in)
+			if cc == nil {
 				return
 			}
-			nsel++
-			good := false
-			for _, st := range sel.States {
-				if st.Dir != types.RecvOnly {
-					continue
+			h := calleeFn(cc)
+			if h == nil || !isModFn(h) || h.Blocks == nil || h == ls {
+				return
+			}
+			args := cc.Args
+			selFns = append(selFns, selFn{h, func(prm *ssa.Parameter) ssa.Value {
+				idx := paramIndex(h, prm)
+				if idx < 0 || idx >= len(args) {
+					return nil
 				}
-				// channel parameter
-				if prm, ok := st.Chan.(*ssa.Parameter); ok {
-					idx := paramIndex(ls, prm)
-					if idx < len(ed.Site.Common().Args) {
-						a := ed.Site.Common().Args[idx]
-						for {
-							if ct, ok := a.(*ssa.ChangeType); ok {
-								a = ct.X
-								continue
+				a := args[idx]
+				for {
+					if ct, ok := a.(*ssa.ChangeType); ok {
+						a = ct.X
+						continue
+					}
+					break
+				}
+				if lp, ok := a.(*ssa.Parameter); ok && lp.Parent() == ls {
+					return lsArg(lp)
+				}
+				return nil
+			}})
+		})
+		for _, sf := range selFns {
+			sf := sf
+			eachInstr(sf.fn, func(_ *ssa.BasicBlock, _ int, in ssa.Instruction) {
+				sel, ok := in.(*ssa.Select)
+				if !ok || !sel.Blocking {
+					return
+				}
+				nsel++
+				good := false
+				for _, st := range sel.States {
+					if st.Dir != types.RecvOnly {
+						continue
+					}
+					// channel parameter
+					if prm, ok := st.Chan.(*ssa.Parameter); ok {
+						if a := sf.arg(prm); a != nil {
+							for {
+								if ct, ok := a.(*ssa.ChangeType); ok {
+									a = ct.X
+									continue
+								}
+								break
 							}
-							break
-						}
-						if u, ok := a.(*ssa.UnOp); ok && u.Op == token.MUL {
-							a = u.X
-						}
-						if raised[a] {
-							good = true
+							if u, ok := a.(*ssa.UnOp); ok && u.Op == token.MUL {
+								a = u.X
+							}
+							if raised[a] {
+								good = true
+							}
 						}
 					}
-				}
-				// ctx.Done() of a context parameter whose cancel function the receiver goroutine calls
-				if call, ok := st.Chan.(*ssa.Call); ok && call.Call.IsInvoke() && call.Call.Method.Name() == "Done" {
-					if prm, ok := call.Call.Value.(*ssa.Parameter); ok {
-						idx := paramIndex(ls, prm)
-						if idx < len(ed.Site.Common().Args) {
-							a := ed.Site.Common().Args[idx]
-							// ctx, cancel := context.WithCancel(...): a = Extract 0, cancel = Extract 1 of the same call
-							if ex, ok := a.(*ssa.Extract); ok {
-								for _, r := range *ex.Tuple.Referrers() {
-									if ex2, ok := r.(*ssa.Extract); ok && ex2.Index == 1 {
-										if raised[ex2] {
-											good = true
-										}
-										// cancel captured through a cell
-										for _, r2 := range *ex2.Referrers() {
-											if s, ok := r2.(*ssa.Store); ok && raised[s.Addr] {
+					// ctx.Done() of a context parameter whose cancel function the receiver goroutine calls
+					if call, ok := st.Chan.(*ssa.Call); ok && call.Call.IsInvoke() && call.Call.Method.Name() == "Done" {
+						if prm, ok := call.Call.Value.(*ssa.Parameter); ok {
+							if a := sf.arg(prm); a != nil {
+								// ctx, cancel := context.WithCancel(...): a = Extract 0, cancel = Extract 1 of the same call
+								if ex, ok := a.(*ssa.Extract); ok {
+									for _, r := range *ex.Tuple.Referrers() {
+										if ex2, ok := r.(*ssa.Extract); ok && ex2.Index == 1 {
+											if raised[ex2] {
 												good = true
+											}
+											// cancel captured through a cell
+											for _, r2 := range *ex2.Referrers() {
+												if s, ok := r2.(*ssa.Store); ok && raised[s.Addr] {
+													good = true
+												}
 											}
 										}
 									}
@@ -531,12 +629,12 @@ func checkSenderWokenByReceiver(c *Ctx, rule string) {
 						}
 					}
 				}
-			}
-			if !good {
-				okAll = false
-				why = p.Pos(sel.Pos())
-			}
-		})
+				if !good {
+					okAll = false
+					why = p.Pos(sel.Pos())
+				}
+			})
+		}
 		if nsel == 0 {
 			c.Undecided(rule, site, ed.Pos(), "the sender loop has no blocking select")
 			continue
